@@ -252,8 +252,39 @@ STREAMS = [
 ]
 
 META = {
-    "level_text": "placeholder",
-    "level_note": "placeholder",
-    "technique": "Coq proof + in-Coq replay of recorded delta calls + client-replica oracle",
+    "level_text": (
+        "Coq theorems over Model/Store.v (task-proxy part of DataStoreMgr + module-level apply_delta, protobuf presence "
+        "semantics, CLEAR_FIELD_MAP read from the source), for ALL sequences of delta_* calls, update_data_structure, "
+        "_update_workflow_state, reload and the start-up put: (1) delta algebra — the client replica obtained by folding "
+        "apply_delta over everything put on the publish queue (plus what is handed over but not yet put) equals the scheduler's "
+        "store on status, held/queued/runahead, flow numbers, outputs and prerequisites, and after every "
+        "update_data_structure/_update_workflow_state nothing is outstanding; ingredients proved for all inputs: MergeFrom on "
+        "task-proxy elements is a monoid action, the published batch (whose `added` elements are aliased with the store) has the "
+        "effect of the applied batch, apply_delta respects store equality, a duplicated publish is harmless on these fields; "
+        "(2) pool-reflected — for all programs of pool mutations each accompanied by the scheduler's delta_* call "
+        "(add/ghost/from_task_proxy, state with the literal 'only if it differs from the store or the pending delta' rule, outputs, "
+        "prerequisites, flows, remove, arbitrary calls about non-pool ids, edges, pruning of non-pool ids), after "
+        "update_data_structure every pooled task is in the store with the pool's status, flags, flows, outputs and "
+        "prerequisites; the delta_task_state rule is proved lossless. The full statement 'replica = store on every field' is "
+        "REFUTED in the faithful model (c25_replica_strict_refuted: a task added and given an edge in one batch gets the edge id "
+        "twice in the client) — this is a genuine defect of apply_delta (known finding, fix proposed). "
+        "Tie: every generated scheduler run (hold/release/hold-point/stop commands, queues, retries, restarts, reload, graph-window "
+        "resizing) is replayed: the recorded delta_* calls drive the model and its store, each published task-proxy delta and the "
+        "client replica are compared inside Coq with the real store, the real published deltas and a real replica built with "
+        "the real apply_delta at every main-loop iteration. Oracle (implementation only): every pooled task is in "
+        "data_store_mgr.data with the pool's values, the replica (fed only by published deltas, decoded from the wire format) "
+        "equals the scheduler's store element by element for all seven element types, per-topic and 'all' deltas agree, "
+        "checksums match."),
+    "level_note": (
+        "Partial: theorem (2) excludes update_workflow_states() running while task-proxy deltas are pending (covered by theorem "
+        "(1), the replay and the oracle); the n-window walk (which ghost nodes exist / are pruned), jobs, families, the "
+        "workflow element, edge pruning and protobuf encoding are not modelled (the oracle compares them at run time; ghost "
+        "creation / pruning enter the model as recorded data). Model/Store.v is a hand model; trusted: Coq kernel+VM, the "
+        "in-process driver (fake process pool), vp/sched/store_ext.py (call recording, replica as in cylc-uiserver: clear on "
+        "`reloaded`, apply_delta, checksum), protobuf. Two open findings are reported as KNOWN-FINDING and do not fail the check: "
+        "duplicated edge/job ids of newly added task proxies in the client, and duplicated id lists of the workflow element "
+        "after the start-up double publish."),
+    "technique": ("Coq proof (monoid of MergeFrom, closed form of apply_delta, invariants over all operation sequences, refutation "
+                  "witness) + in-Coq replay of recorded delta calls of real scheduler runs + client-replica oracle"),
     "design_ref": "5/C25",
 }
